@@ -154,7 +154,9 @@ Fixpoint ttoks (c : ctx) (og : origin) (t : term) {struct t} : res (list dtok) :
       ss <- ttoks_list c og vs ;;
       let body := tjoin "," ss in
       let s := if is_pg (dia c)
-               then (match tflat body with EmptyString => [V "'{}'"] | _ => V "ARRAY[" :: body ++ [V "]"] end)
+               then (match tflat body with
+                     | EmptyString => V "'{}'" :: body      (* [body] has empty text here; kept for the erased view *)
+                     | _ => V "ARRAY[" :: body ++ [V "]"] end)
                else V "[" :: body ++ [V "]"] in
       Ok (alias_toks c og (q c) s alias)
   | TSub col tbl alias =>
